@@ -36,7 +36,7 @@ def _strategy():
     return st.fixed_dictionaries({
         "dll": st.sampled_from(["j1939-21", "j1939-21", "j1939-22"]),
         "aac": st.booleans(), "bypass": st.sampled_from([False, False, True]),
-        "addr": st.sampled_from([0x20, 0x7F, 0x80, 0xC8, 0xF0, 0xF8]),
+        "addr": st.sampled_from([0x20, 0x7F, 0x80, 0xC8, 0xF0, 0xF8, 0xFC, 0xFD, 0xFD]),
         "ops": st.one_of(rnd, pattern),
         "dm1_tail": st.booleans(),
         "lat": st.lists(st.sampled_from(simbus.LATENCY_GRID[1:]), min_size=1, max_size=2),
